@@ -222,7 +222,15 @@ def check_partial(col, repo: Repo):
                 k = u.slice.value
                 ok = True
                 reached = 0
-                for p in paths:
+                # control dependence first (closed guard set; includes the earlier operands of the and/or the read stands in)
+                from sa.core.paths import _len_interval as _li
+                dominated = False
+                for t, tr_ in guards(f.node, u, parent_map(f.node)):
+                    for cand in {key, src(u.value)}:
+                        iv = _li(t, cand, tr_)
+                        if iv is not None and iv[0] >= k + 1:
+                            dominated = True
+                for p in ([] if dominated else paths):
                     # find the event whose statement contains this subscript
                     idx = None
                     for i, e in enumerate(p.events):
@@ -258,7 +266,7 @@ def check_partial(col, repo: Repo):
                                 if iv is not None and iv[0] >= k + 1:
                                     good = True
                             ok = ok and good
-                col.add("C09.R3", f.short, f"indexed-read:{src(u)}", ok and reached > 0,
+                col.add("C09.R3", f.short, f"indexed-read:{src(u)}", dominated or (ok and reached > 0),
                         f"`{src(u)}` reads element {k} of a list-valued field: on every path (or at every call site) a length test that raises/asserts "
                         "must come first, otherwise a malformed call either crashes obscurely or, with a shorter guard, silently ignores arguments",
                         f"{f.module.rel}:{u.lineno}")
